@@ -883,3 +883,68 @@ fn c07_diff_computed_storage_keys() {
     }
     println!("CASES c07_computed_keys {cases}");
 }
+
+// ------------------------------------------------------------------------------------------------
+// stack effect of every non-transferring opcode against the EVM's arity table (Shanghai)
+// ------------------------------------------------------------------------------------------------
+/// (byte, items popped, items pushed) of every Shanghai opcode that neither ends the path nor transfers control;
+/// DUPn / SWAPn are listed with their NET effect (0/1 and 0/0)
+pub fn evm_arity() -> Vec<(u8, usize, usize)> {
+    let mut t: Vec<(u8, usize, usize)> = vec![];
+    for op in [0x01u8, 0x02, 0x03, 0x04, 0x05, 0x06, 0x07, 0x0a, 0x0b, 0x10, 0x11, 0x12, 0x13, 0x14, 0x16, 0x17, 0x18, 0x1a, 0x1b, 0x1c, 0x1d, 0x20] { t.push((op, 2, 1)); }
+    for op in [0x08u8, 0x09] { t.push((op, 3, 1)); }
+    for op in [0x15u8, 0x19, 0x31, 0x35, 0x3b, 0x3f, 0x40, 0x51, 0x54] { t.push((op, 1, 1)); }
+    for op in [0x30u8, 0x32, 0x33, 0x34, 0x36, 0x38, 0x3a, 0x3d, 0x41, 0x42, 0x43, 0x44, 0x45, 0x46, 0x47, 0x48, 0x58, 0x59, 0x5a, 0x5f] { t.push((op, 0, 1)); }
+    for op in [0x37u8, 0x39, 0x3e] { t.push((op, 3, 0)); }
+    t.push((0x3c, 4, 0));
+    t.push((0x50, 1, 0));
+    for op in [0x52u8, 0x53, 0x55] { t.push((op, 2, 0)); }
+    t.push((0x5b, 0, 0));
+    for op in 0x60u8..=0x7f { t.push((op, 0, 1)); }
+    for op in 0x80u8..=0x8f { t.push((op, 0, 1)); }
+    for op in 0x90u8..=0x9f { t.push((op, 0, 0)); }
+    for n in 0u8..=4 { t.push((0xa0 + n, 2 + n as usize, 0)); }
+    t.push((0xf0, 3, 1));
+    t.push((0xf1, 7, 1));
+    t.push((0xf2, 7, 1));
+    t.push((0xf4, 6, 1));
+    t.push((0xf5, 4, 1));
+    t.push((0xfa, 6, 1));
+    t
+}
+
+/// 17 distinct constants, the opcode, then the end of the code: the one stored state must have exactly
+/// 17 - popped + pushed items, and every item below the popped ones must still be the constant pushed there
+#[test]
+fn c07_diff_stack_effect_of_every_opcode() {
+    let mut cases = 0u64;
+    for (op, pops, pushes) in evm_arity() {
+        let mut code: Vec<u8> = vec![];
+        for i in 0..17u8 { code.extend([0x60, 0x11 + i]); }
+        code.push(op);
+        if (0x60..=0x7f).contains(&op) { code.extend(std::iter::repeat(0x01).take((op - 0x5f) as usize)); }
+        cases += 1;
+        let none = BTreeSet::new();
+        let outs = match run_symbolic(&code, &none, &none) { Ok(o) => o, Err(e) => {
+            if e == "PANIC" { witness("C01", "analyze.panic.opcode_on_constants", hex(&code), "PANIC".into(), "no panic".into()); }
+            else { witness("C07", "opcode.stack_effect_is_evm_arity", hex(&code), format!("execution error {e}"), format!("opcode {op:#04x} pops {pops} pushes {pushes}")); }
+            continue;
+        } };
+        if outs.len() != 1 { witness("C07", "opcode.stack_effect_is_evm_arity", hex(&code), format!("{} stored states", outs.len()), "1 (straight-line code)".into()); continue; }
+        let st = &outs[0].stack; // top first
+        let want = 17 - pops + pushes;
+        if st.len() != want { witness("C07", "opcode.stack_effect_is_evm_arity", hex(&code), format!("depth {} after opcode {op:#04x}", st.len()), format!("depth {want} (pops {pops}, pushes {pushes})")); continue; }
+        if (0x90..=0x9f).contains(&op) { continue; }
+        // untouched items: bottom .. 17 - pops
+        for k in 0..(17 - pops) {
+            let from_top = st.len() - 1 - k;
+            let wantv = w(0x11 + k as u128);
+            let (raw, folded) = st[from_top];
+            if raw != Some(wantv) || folded != Some(wantv) {
+                witness("C07", "opcode.stack_effect_is_evm_arity", hex(&code), format!("item {k} from the bottom = {raw:?}/{folded:?} after opcode {op:#04x}"), format!("{wantv:#x} (not an operand of the opcode)"));
+                break;
+            }
+        }
+    }
+    println!("CASES c07_diff_stack_effect {cases}");
+}
